@@ -3,6 +3,9 @@ import SlicecVerif.Drv.C11
 import SlicecVerif.Drv.C12
 import SlicecVerif.Drv.C02
 import SlicecVerif.Drv.C17
+import SlicecVerif.Drv.C07
+import SlicecVerif.Drv.C18
+import SlicecVerif.Drv.C01
 import SlicecVerif.Drv.C20
 import SlicecVerif.Drv.C06
 import SlicecVerif.Drv.C15
@@ -26,6 +29,9 @@ def main (args : List String) : IO UInt32 := do
     | "C02" => genC02 t s o
     | "C09" => genC09 t s o
     | "C17" => genC17 t s o
+    | "C07" => genC07 t s o
+    | "C18" => genC18 t s o
+    | "C01" => genC01 t s o
     | "C20" => genC20 t s o
     | "C06" => genC06 t s o
     | "C15" => genC15 t s o
